@@ -173,6 +173,37 @@ class SymElem:
         return "%s[%s]" % (self.seq.name, self.idx)
 
 
+class ObjSeq:
+    """a list of symbolic length n of objects of an abstract family: element i is object number ix(i);
+    an attribute of object number b is attrs[name](b) (uninterpreted functions of the object number).
+    list.sort(key=...) replaces ix by ix o pi for a permutation pi the trusted contract of sort describes."""
+    _count = [0]
+
+    def __init__(self, name, n, attrs, ix=None, fresh=False):
+        self.name, self.n, self.attrs = name, n, attrs
+        self.ix = ix if ix is not None else (lambda i: i)
+        self.fresh = fresh
+        self.sorts = []          # (pi, key term builder) of every sort applied, for hints
+
+    def copy(self):
+        c = ObjSeq(self.name + "'", self.n, self.attrs, self.ix, fresh=True)
+        c.sorts = self.sorts      # shared: the contract of the caller reads the permutations for its hints
+        return c
+
+    def __repr__(self):
+        return "ObjSeq(%s)" % self.name
+
+
+class ObjSeqElem:
+    def __init__(self, seq, base):
+        self.attrs_of = seq.attrs
+        self.family = seq.name.rstrip("'")
+        self.base = base
+
+    def __repr__(self):
+        return "%s<%s>" % (self.family, self.base)
+
+
 class PairSeq:
     """ghost list of pairs of ints (the yielded values of a generator): two z3 arrays and a length"""
 
